@@ -632,6 +632,257 @@ def evaluate(ctx, h, cases, judge):
         judge.padded_d = False
 
 
+# ====================================================================== matrix polynomial API (monomial-matrix-poly.c)
+SIG_MPOLY_GUARD = "asan:heap-buffer-overflow:mps_monomial_matrix_poly_set_coefficient_d:index-between-degree-and-degree*m-accepted"
+SIG_MPOLY_DOC = "value:mps_monomial_matrix_poly_meval:coefficients-of-degree>=1-ignored(det(P_0-xI)-instead-of-det(P(x)))"
+FILL = struct.unpack("<d", b"\x3f" * 8)[0]          # what the harness leaves in every block handed out by mps_malloc
+
+
+def gen_hess_block(rng, m, kind):
+    if kind == "int":
+        return gen_matrix(rng, m, 0, 0, 0, cplx=rng.random() < 0.7, zero_sub=0.1, small_int=4)
+    return gen_matrix(rng, m, 53, -2, 3, cplx=rng.random() < 0.7, zero_sub=0.1)
+
+
+def make_mpoly_cases(ctx):
+    rng = ctx.rng
+    cases = []
+
+    def add(cls, deg, m, ops):
+        cases.append({"id": "p%d" % len(cases), "cls": cls, "deg": deg, "m": m, "ops": ops})
+    one = [(1.0, 0.0)]
+    # witness of C20_mpoly_meval_not_matrix_polynomial_refuted: P(x) = [1] + [1] x at x = 1
+    add("witness-doc", 1, 1, [("S", 0, one), ("S", 1, one), ("E", 64, (1.0, 0.0))])
+    # witness of C20_mpoly_set_coeff_guard_refuted: m = 2, degree 1, i = 2
+    add("witness-guard", 1, 2, [("S", 2, [(1.0, 0.0)] * 4), ("E", 64, (0.5, 0.0))])
+    for _ in range(ctx.pick(40, 200)):
+        deg = rng.choice([0, 1, 1, 2, 3])
+        m = rng.choice([1, 2, 2, 3, 4, 6, 9])
+        kind = rng.choice(["int", "full53"])
+        ops = []
+        idx = [rng.randint(0, deg) for _ in range(rng.randint(1, 5))]
+        style = rng.random()
+        if style < 0.25:
+            idx = [i for i in idx if i != 0] or [deg] if deg > 0 else idx          # coefficient 0 never stored
+        elif style < 0.5:
+            idx = idx + [0]
+        cls = "inbounds"
+        for i in idx:
+            ops.append(("S", i, gen_hess_block(rng, m, kind)))
+            if rng.random() < 0.3:
+                ops.append(("E", rng.choice(WPS[:5]), gen_shift(rng, "complex", 53, -2, 2)))
+            if rng.random() < 0.15:
+                ops.append(("S", rng.choice([-1, -7, deg * m + 1, deg * m + 5]), gen_hess_block(rng, m, kind)))
+                cls = "with-rejected"
+        ops.append(("E", rng.choice(WPS[:5]), gen_shift(rng, rng.choice(["real", "complex", "complex"]), 53, -2, 2)))
+        if 0 not in [o[1] for o in ops if o[0] == "S" and 0 <= o[1] <= deg]:
+            cls = "coefficient0-never-stored"
+        add(cls, deg, m, ops)
+    # indices between degree + 1 and degree * m (accepted by the guard as coded): each in its own process
+    for _ in range(ctx.pick(3, 10)):
+        deg = rng.choice([1, 2, 3]); m = rng.choice([2, 3, 4])
+        i = rng.randint(deg + 1, deg * m)
+        add("guard", deg, m, [("S", 0, gen_hess_block(rng, m, "int")), ("S", i, gen_hess_block(rng, m, "int")),
+                              ("E", 64, gen_shift(rng, "real", 53, -2, 2))])
+    return cases
+
+
+def mpoly_harness_line(c):
+    out = [c["id"], str(c["deg"]), str(c["m"])]
+    for op in c["ops"]:
+        if op[0] == "S":
+            out += ["S", str(op[1])] + [vf.hexd(v) for z in op[2] for v in z]
+        else:
+            out += ["E", str(op[1]), vf.hexd(op[2][0]), vf.hexd(op[2][1])]
+    return " ".join(out)
+
+
+def mpoly_scale(c):
+    vals = [FILL] + [v for op in c["ops"] for z in (op[2] if op[0] == "S" else [op[2]]) for v in z]
+    c["sc"] = -min([dyadic_exp(v) for v in vals] + [0])
+
+
+def mpoly_model(ctx, cases):
+    """extracted coefficient-store model (Hess.mpoly_run), coded and fixed guard, on the calls before every E op
+    and on the whole case: fills c['model'][fixed] = {'status': str per non-negative call, 'blocks': {k: block}}"""
+    lines, keys = [], []
+    for c in cases:
+        mpoly_scale(c)
+        sc = c["sc"]
+        fill = hx(int(Fraction(FILL) * pow2(sc)))
+        def pline(fixed, upto):
+            toks = ["P", str(fixed), str(c["deg"]), str(c["m"]), fill, fill]
+            for op in c["ops"][:upto]:
+                if op[0] == "S" and op[1] >= 0:
+                    toks += [str(op[1])] + [hx(int(Fraction(v) * pow2(sc))) for z in op[2] for v in z]
+            return " ".join(toks)
+        for fixed in (0, 1):
+            for k, op in enumerate(c["ops"]):
+                if op[0] == "E":
+                    lines.append(pline(fixed, k)); keys.append((c, fixed, k))
+            lines.append(pline(fixed, len(c["ops"]))); keys.append((c, fixed, None))
+    rows = ctx.run_model_lines("hess", lines, workers=4)
+    for (c, fixed, k), row in zip(keys, rows):
+        f = row.split()
+        mdl = c.setdefault("model", {}).setdefault(fixed, {"status": None, "blocks": {}})
+        blk = [(Fraction(unhx(f[1 + 2 * j])) / pow2(c["sc"]), Fraction(unhx(f[2 + 2 * j])) / pow2(c["sc"])) for j in range(c["m"] ** 2)]
+        if k is None:
+            mdl["status"] = "" if f[0] == "-" else f[0]
+        else:
+            mdl["blocks"][k] = (("" if f[0] == "-" else f[0]), blk)
+
+
+def mpoly_expected_status(c, fixed):
+    """statuses of ALL set calls in order (negative indices: rejected by the first test, not part of the model)"""
+    st = list(c["model"][fixed]["status"])
+    out = []
+    for op in c["ops"]:
+        if op[0] != "S": continue
+        if op[1] < 0: out.append("1")
+        elif st: out.append(st.pop(0))
+        else: out.append("?")                      # after an overflow the model stops
+        if out[-1] == "2": break
+    return "".join(out)
+
+
+def mpoly_py_block0(c, upto, which):
+    """independent statement of the specification (C20_mpoly_meval_is_det / C20_mpoly_block0): once a call has been
+    accepted, the last matrix stored with index 0, else the fill; before any accepted call the zeros of mpc_vinit2"""
+    m = c["m"]
+    bound = c["deg"] * m if which == 0 else c["deg"]
+    blk = [(Fraction(FILL), Fraction(FILL))] * (m * m)
+    accepted = False
+    for op in c["ops"][:upto]:
+        if op[0] == "S" and 0 <= op[1] <= bound:
+            accepted = True
+            if op[1] == 0:
+                blk = [(Fraction(a), Fraction(b)) for a, b in op[2]]
+    return blk if accepted else [(Fraction(0), Fraction(0))] * (m * m)
+
+
+def run_mpoly_harness(ctx, h, cases):
+    text = "\n".join(mpoly_harness_line(c) for c in cases) + "\n"
+    rc, out, err = vf.sh([h], input=text, timeout=ctx.pick(300, 900), env=ctx.san_env())
+    res = {}
+    for row in out.split("\n"):
+        f = row.split()
+        if not f: continue
+        r = res.setdefault(f[1], {"S": [], "V": {}, "done": False})
+        if f[0] == "S": r["S"].append(f[3])
+        elif f[0] == "V":
+            r["V"][int(f[2])] = (int(f[3]), mpf_digits_to_frac(f[4], int(f[5])), mpf_digits_to_frac(f[6], int(f[7])), vf.dhex(f[8]), int(f[9]))
+        elif f[0] == "Z": r["done"] = True
+    return rc, res, err
+
+
+def mpoly_replay_obj(c, extra=None):
+    o = {"mpoly": {"id": c["id"], "cls": c["cls"], "deg": c["deg"], "m": c["m"],
+                   "ops": [[op[0], op[1], [[vf.hexd(a), vf.hexd(b)] for a, b in op[2]]] if op[0] == "S"
+                           else [op[0], op[1], [vf.hexd(op[2][0]), vf.hexd(op[2][1])]] for op in c["ops"]]}}
+    if extra: o.update(extra)
+    return o
+
+
+def mpoly_case_from_replay(obj):
+    c = obj["mpoly"]
+    ops = []
+    for op in c["ops"]:
+        if op[0] == "S": ops.append(("S", op[1], [(vf.dhex(a), vf.dhex(b)) for a, b in op[2]]))
+        else: ops.append(("E", op[1], (vf.dhex(op[2][0]), vf.dhex(op[2][1]))))
+    return {"id": c.get("id", "p0"), "cls": c.get("cls", "replay"), "deg": c["deg"], "m": c["m"], "ops": ops}
+
+
+def evaluate_mpoly(ctx, judge, cases):
+    """public API of the matrix polynomial (ASan+UBSan) against the extracted coefficient-store model and the
+    verified determinant oracle; the predicate is the m variant's own: |value - det (P_0 - x I)| <= returned bound."""
+    h = ctx.compile_harness(["c20_mpoly.c"], "c20_mpoly", mode="san", extra_ldflags="-Wl,--wrap=mps_malloc")
+    mpoly_model(ctx, cases)
+    stats = {"cases": len(cases), "set_calls": 0, "rejected": 0, "evaluations": 0, "by_class": {}, "agrees_with_guard": {"coded": 0, "fixed": 0, "both": 0},
+             "block0_spec_checked": 0, "overflow_reproduced": 0}
+    # cases for which the model of the code AS WRITTEN predicts an out-of-bounds memmove run alone
+    alone = [c for c in cases if "2" in c["model"][0]["status"]]
+    together = [c for c in cases if c not in alone]
+    runs = [together] + [[c] for c in alone]
+    pseudo = []
+    for group in runs:
+        if not group: continue
+        rc, res, err = run_mpoly_harness(ctx, h, group)
+        for c in group:
+            r = res.get(c["id"], {"S": [], "V": {}, "done": False})
+            stats["by_class"][c["cls"]] = stats["by_class"].get(c["cls"], 0) + 1
+            got = "".join(r["S"])
+            exp_c, exp_f = mpoly_expected_status(c, 0), mpoly_expected_status(c, 1)
+            if not r["done"]:
+                kind, fn = san_signature(err)
+                if kind == "asan:heap-buffer-overflow" and fn == "mps_monomial_matrix_poly_set_coefficient_d" and exp_c.endswith("2") \
+                        and got == exp_c[:-1]:
+                    stats["overflow_reproduced"] += 1
+                    k = [j for j, op in enumerate(c["ops"]) if op[0] == "S"][len(got)]
+                    ctx.violation(SIG_MPOLY_GUARD,
+                                  "mps_monomial_matrix_poly_set_coefficient_d accepts the index %d of a matrix polynomial of degree %d (m = %d): the guard "
+                                  "compares with the degree of the scalar polynomial, degree * m, and the memmove writes past the coefficient array "
+                                  "(witness of C20_mpoly_set_coeff_guard_refuted)" % (c["ops"][k][1], c["deg"], c["m"]),
+                                  mpoly_replay_obj(c, {"stderr": err[-1200:]}))
+                else:
+                    ctx.violation("%s:%s:mpoly:%s" % (kind or "crash:rc=%d" % rc, fn or "?", c["cls"]),
+                                  "matrix polynomial API: %s in %s (class %s, degree %d, m %d)" % (kind, fn, c["cls"], c["deg"], c["m"]),
+                                  mpoly_replay_obj(c, {"stderr": err[-1200:]}))
+                continue
+            stats["set_calls"] += len(got); stats["rejected"] += got.count("1")
+            if got == exp_c and got == exp_f: which = 0; stats["agrees_with_guard"]["both"] += 1
+            elif got == exp_c: which = 0; stats["agrees_with_guard"]["coded"] += 1
+            elif got == exp_f: which = 1; stats["agrees_with_guard"]["fixed"] += 1
+            else:
+                ctx.violation("correspondence:mpoly-set-coefficient-status",
+                              "set_coefficient_d accepts/rejects differently from both models of the guard (got %s, as coded %s, fixed %s; degree %d, m %d)"
+                              % (got, exp_c, exp_f, c["deg"], c["m"]), mpoly_replay_obj(c), no_input=True)
+                continue
+            for k, op in enumerate(c["ops"]):
+                if op[0] != "E": continue
+                st, blk = c["model"][which]["blocks"][k]
+                if blk != mpoly_py_block0(c, k, which):
+                    ctx.violation("correspondence:mpoly-model-block0", "the extracted coefficient-store model does not hand the last coefficient of degree 0 "
+                                  "(or the initial content) to the evaluation", mpoly_replay_obj(c), no_input=True)
+                    continue
+                stats["block0_spec_checked"] += 1
+                wpe, vre, vim, em, ee = r["V"][k]
+                pseudo.append(({"id": "%s.%d" % (c["id"], k), "cls": "mpoly:" + c["cls"], "n": c["m"], "H": blk, "s": (Fraction(op[2][0]), Fraction(op[2][1])),
+                                "wps": []}, c, k, wpe, (vre, vim), Fraction(em) * pow2(ee)))
+    # exact determinants of the blocks handed to the evaluation
+    pcs = [p[0] for p in pseudo]
+    for pc in pcs: model_line(pc, "D")
+    run_model_parallel(ctx, pcs, {pc["id"]: "DB" for pc in pcs})
+    for pc, c, k, wpe, val, eb in pseudo:
+        stats["evaluations"] += 1
+        judge.count("mpoly-wp:%d" % wpe)
+        judge.check_value(pc, "m", val, C_M, Fraction(2) ** (1 - wpe), wp=wpe, errbound=eb, spec="mpoly")
+        if c["cls"] == "witness-doc":
+            # documented: det (P (x)); P (x) = [1] + [1] x at x = 1 is 2
+            doc = (Fraction(2), Fraction(0))
+            if judge.err2(val, doc) > eb * eb:
+                ctx.violation(SIG_MPOLY_DOC,
+                              "mps_monomial_matrix_poly_meval is documented to return det (P (x)) with an upper bound of the absolute error, but evaluates "
+                              "det (P_0 - x I) from the first m x m block only: P (x) = [1] + [1] x at x = 1 gives %s with error bound %.3g instead of 2 "
+                              "(witness of C20_mpoly_meval_not_matrix_polynomial_refuted)" % (float(val[0]), float(eb)),
+                              mpoly_replay_obj(c, {"computed": [str(val[0]), str(val[1])], "documented": "2"}))
+    return stats
+
+
+def load_own_known(ctx):
+    """the fragment known/C20.json is the source of the C20 entries of known_findings.json (lib/mkmanifest.py merges
+    it); read it as well so that the verdict does not depend on the merge having been run"""
+    p = os.path.join(vf.VERIF, "known", "C20.json")
+    try:
+        frag = json.load(open(p)).get("findings", [])
+    except Exception:
+        return
+    have = {k.get("signature") for k in ctx.known}
+    for f in frag:
+        if f.get("property") == "C20" and f.get("status", "open") == "open" and f.get("signature") not in have:
+            ctx.known.append(f)
+
+
+
 def case_from_replay(obj):
     c = obj["case"]
     return {"id": c.get("id", "r0"), "cls": c.get("cls", "replay"), "n": c["n"], "wps": c.get("wps", [64]),
@@ -643,8 +894,15 @@ def run(ctx):
     ctx.prove()
     h = ctx.compile_harness(["c20_hess.c"], "c20_hess", mode="san", extra_ldflags="-Wl,--wrap=mps_malloc")
     judge = Judge(ctx)
+    load_own_known(ctx)
     if ctx.replay:
-        case = case_from_replay(json.load(open(ctx.replay)))
+        robj = json.load(open(ctx.replay))
+        if "mpoly" in robj:
+            st = evaluate_mpoly(ctx, judge, [mpoly_case_from_replay(robj)])
+            ctx.proof_violation_if_broken(search=lambda: bool(ctx.violations))
+            return ctx.finish("proof", {"evaluations": judge.evals, "replay": ctx.replay, "distinct_nontrivial": len(judge.nontrivial),
+                                        "rule": "replayed matrix-polynomial case", "samples": [], "matrix_polynomial_api": st})
+        case = case_from_replay(robj)
         evaluate(ctx, h, [case], judge)
         ctx.proof_violation_if_broken(search=lambda: bool(ctx.violations))
         report_errvec(ctx, judge)
@@ -652,6 +910,8 @@ def run(ctx):
                                     "rule": "replayed case", "samples": judge.samples})
     cases = make_cases(ctx)
     evaluate(ctx, h, cases, judge)
+    mpoly_stats = evaluate_mpoly(ctx, judge, make_mpoly_cases(ctx))
+    ctx.log("matrix polynomial API: %(cases)d cases, %(set_calls)d set calls, %(evaluations)d evaluations" % mpoly_stats)
     ctx.proof_violation_if_broken(search=lambda: bool(ctx.violations))
     report_errvec(ctx, judge)
 
@@ -669,6 +929,7 @@ def run(ctx):
         "m_error_vector": {"compared_with_model": judge.errvec_compared, "smaller_than_model": len(judge.errvec_smaller),
                            "larger_than_model": len(judge.errvec_larger), "tolerance": "1e-6 relative, both directions",
                            "returned_over_model_min_max": list(judge.errvec_ratio)},
+        "matrix_polynomial_api": mpoly_stats,
         "f_mantissa_exponent_range_checked": judge.f_range_checked,
         "d_variant_values_from_padded_run": getattr(judge, "padded_d", None),
         "constants": {"C_f": C_F, "C_d": C_D, "C_m": C_M, "u_f": "2^-53", "u_d": "2^-52", "u_m": "2^(1-wp)",
@@ -677,6 +938,7 @@ def run(ctx):
         "trusted_base": [
             "Coq 8.16.1 kernel, MathComp 1.15 (matrix.v determinant theory)",
             "extraction to OCaml (ExtrOcamlBasic, ExtrOcamlNativeString only) and ocaml/hess_driver.ml (hex <-> Z conversion, row splitting)",
+            "harness/c20_mpoly.c (public matrix-polynomial API, every mps_malloc block pre-filled with 0x3f) and the extracted coefficient-store model Hess.mpoly_run",
             "harness/c20_hess.c (exact export: bit patterns of doubles, mpf_get_str base 16) and the exact rational predicate in checks/C20.py",
             "the standard rounding model (no underflow/overflow) for the a-priori theorem; constants C documented in checks/C20.py",
             "mathcomp algebra-tactics `ring` (elpi) used in HessApriori.v/HessErrVec.v; proof terms are checked by the kernel",
